@@ -899,7 +899,12 @@ func (g *generator) step() (res Value, resultType resultType, ex *Exception) {
 	for {
 		ex = vm.runTryInner()
 		if ex != nil {
-			return
+			// stopped at the frame of a finally block that an earlier return() had entered and that is abandoned
+			// now, or at the frame pushed by enterNext
+			if ex = g.throwIntoBody(ex); ex != nil {
+				return
+			}
+			continue
 		}
 		if vm.halted() {
 			break
@@ -951,8 +956,9 @@ func (g *generator) nextThrow(v interface{}) (Value, resultType, *Exception) {
 	aborted := true
 	defer g.unwind(&aborted)
 	ex := g.vm.handleThrow(v)
-	if ex != nil && g.returning != nil {
-		// suspended inside a finally block that was entered by return()
+	if ex != nil {
+		// suspended inside a finally block that was entered by return() (the frame of that block stops the
+		// unwinding; the return may meanwhile have been replaced by an exception that the body caught)
 		ex = g.throwIntoBody(ex)
 	}
 	if ex != nil {
